@@ -69,7 +69,7 @@ def f14_program():
     return base, ("un", o, (("sql", 0), True, False, False), base), ("un", o, mp.DEFAULT, base)
 
 
-def order_sensitive(rng, counter):
+def order_sensitive(rng, counter, blocker_kind=None, mover_kind=None, between=None):
     """Iteration engines only (row order is exact): an order- or count-sensitive operation downstream of the transfer,
     then an operation that must not move past it — a slice above a sort / selection / deduplication, a sort above a
     sort or slice, a deduplication or selection above a slice."""
@@ -77,32 +77,43 @@ def order_sensitive(rng, counter):
     cols = gen.gen_schema(rng, maxk=2, maxn=1, allow_empty=False)
     counter[0] += 1
     leaf = mp.gen_leaf(rng, counter[0], cols, src, special=0, loose=0)
+    for _try in range(30):        # the systematic pairs want enough distinct rows for order and count to matter
+        if blocker_kind is None or len({tuple(sorted(r.items())) for r in leaf[4]}) >= 3:
+            break
+        leaf = mp.gen_leaf(rng, counter[0], cols, src, special=0, loose=0)
     cur = set(leaf[3])
     p = ("xfer", mid, leaf)
     c = rng.choice(sorted(cur))
     blockers = [("sort", [(("ref", c), rng.random() < 0.5)]), ("slice", rng.choice([0, 1]), rng.choice([2, 3, None])),
                 ("sel", ("cmp", rng.choice(["gt", "le"]), ("ref", c), ("lit", 1))), ("dedup",)]
-    blocker = rng.choice(blockers)
+    blocker = rng.choice(blockers) if blocker_kind is None else [b for b in blockers if b[0] == blocker_kind][0]
     if blocker == ("slice", 0, None):
         blocker = ("slice", 1, None)
     p = ("un", blocker, mp.DEFAULT, p)
-    for _ in range(rng.choice([0, 0, 1])):
+    for _ in range(rng.choice([0, 0, 1]) if between is None else between):
         o, cur = gen.gen_op(rng, cur, weights=[2, 0, 2, 0, 0, 0])      # calculations / projections in between
         p = ("un", o, mp.DEFAULT, p)
-    movers = [("slice", rng.choice([0, 1]), rng.choice([1, 2, 3])), ("dedup",)]
+    a0 = rng.choice([0, 1])
+    movers = [("slice", a0, a0 + rng.choice([1, 2])), ("dedup",)]
     if cur:
         c2 = rng.choice(sorted(cur))
         movers += [("sort", [(("ref", c2), rng.random() < 0.5)]), ("sel", ("cmp", "ge", ("ref", c2), ("lit", 1)))]
+    if mover_kind is not None and any(m[0] == mover_kind for m in movers):
+        return p, cur, src, [m for m in movers if m[0] == mover_kind][0]
     return p, cur, src, rng.choice(movers)
 
 
 def make_programs(rng, n):
     out = [f2_program(), f14_program()]
-    for _ in range(n // 4):
+    combos = [(b, m, k) for b in ("sort", "slice", "sel", "dedup") for m in ("slice", "dedup", "sort", "sel") for k in (0, 1)]
+    for i in range(max(n // 4, len(combos))):
         counter = [0]
-        base, cur, src, o = order_sensitive(rng, counter)
+        bk, mk, btw = combos[i] if i < len(combos) else (None, None, None)      # every blocker/mover pair once, then random
+        base, cur, src, o = order_sensitive(rng, counter, bk, mk, btw)
         # half of these histories apply the call to a tree that a Processor has already processed (its transfers hold payloads)
         processed = rng.random() < 0.5
+        if i < len(combos):
+            processed = False
         for bt, tr, rq in rng.sample(ALL_OPTS, 2) + [(True, False, False)]:
             out.append((base, ("un", o, (src, bt, tr, rq), base), ("un", o, mp.DEFAULT, base), processed))
     for _ in range(n):
